@@ -168,8 +168,21 @@ let op_of (toks : string list) : fop =
   | ["disconnect"] | ["bounce"] -> FDisconnect
   | _ -> failwith ("bad op " ^ String.concat "_" toks)
 
-let run_ofull_engine (s : script) : string list =
+(* the one traversal of a script, shared by the text mode and the codes mode: start-up, then per
+   operation the clock before it and the observations of `fstep` *)
+let traverse (s : script) (on_log : fobs list -> unit) (on_op : fstate -> string list -> unit) (on_end : fstate -> unit) : unit =
   let cfg = cfg_of s in
+  let (st0, log0) = fstart cfg (n_of_int (cfg_int s "sel" 0)) (n_of_int (cfg_int s "op" 0)) (n_of_int (cfg_int s "appiin" 0)) in
+  on_log log0;
+  let st = ref st0 in
+  List.iter (fun toks ->
+      on_op !st toks;
+      let (st1, log) = fstep cfg !st (op_of toks) in
+      on_log log;
+      st := st1) s.ops;
+  on_end !st
+
+let run_ofull_engine (s : script) : string list =
   let out = ref [] in
   let now = ref 0 in
   let emit l = out := (string_of_int !now ^ " " ^ l) :: !out in
@@ -188,17 +201,18 @@ let run_ofull_engine (s : script) : string list =
           emit ("> txparse " ^ (match int_of_n v with 0 -> "ok" | 1 -> "header-error" | 2 -> "not-a-response" | _ -> "object-error"))
         | FUnmodelled -> emit "model-unmodelled"
         | FReplayError -> emit "model-replay-error") log in
-  let (st0, log0) = fstart cfg (n_of_int (cfg_int s "sel" 0)) (n_of_int (cfg_int s "op" 0)) (n_of_int (cfg_int s "appiin" 0)) in
-  print log0;
-  let st = ref st0 in
-  List.iter (fun toks ->
-      now := int_of_z (fnow !st);
-      emit ("op " ^ String.concat " " toks);
-      let (st1, log) = fstep cfg !st (op_of toks) in
-      print log;
-      st := st1) s.ops;
-  now := int_of_z (fnow !st);
-  emit "end";
+  traverse s print
+    (fun st toks -> now := int_of_z (fnow st); emit ("op " ^ String.concat " " toks))
+    (fun st -> now := int_of_z (fnow st); emit "end");
   List.rev !out
 
-let () = register "ofull" run_ofull_engine
+(* codes mode (extraction cross-check, tools/coqeval.py): the same traversal; every observation goes through
+   the EXTRACTED serialiser cx_fobs of coq/Codes/CodesOfull.v, nothing is formatted here *)
+let run_ofull_codes (s : script) : string list =
+  let out = ref [] in
+  traverse s (List.iter (fun o -> out := code_line (cx_fobs o) :: !out))
+    (fun st _ -> out := code_line (cx_op_mark st) :: !out)
+    (fun st -> out := code_line (cx_end_mark st) :: !out);
+  List.rev !out
+
+let () = register "ofull" run_ofull_engine; register_coder "ofull" run_ofull_codes
